@@ -90,7 +90,12 @@ func FormatNumber(num int64) string {
 
 // FormatFloat64 turns a float64 constant into a string.
 func FormatFloat64(floatNum float64) string {
-	return strconv.FormatFloat(floatNum, 'f', -1, 64)
+	s := strconv.FormatFloat(floatNum, 'f', -1, 64)
+	if !strings.ContainsAny(s, ".eEIN") {
+		// Keep integral floats distinguishable from numbers (1.0 is not 1).
+		s += ".0"
+	}
+	return s
 }
 
 // FormatTime formats a time instant (nanoseconds since Unix epoch) as an ISO 8601 string.
